@@ -264,7 +264,12 @@ class Observer:
 
     def __enter__(self):
         C = PP.PrettyContext
-        self.orig = (C.start_visit, C.end_visit, C.is_visited)
+        self.orig = tuple(getattr(C, n, None) for n in ('start_visit', 'end_visit', 'is_visited'))
+        if any(f is None for f in self.orig):
+            # the visit bookkeeping is organised differently: nothing to observe (the visit log is DRIFT-level
+            # information only; the output is judged as before)
+            self.disabled = True
+            return self
         obs = self
 
         def start_visit(ctx, value):
@@ -289,7 +294,11 @@ class Observer:
         C.start_visit, C.end_visit, C.is_visited = start_visit, end_visit, is_visited
         return self
 
+    disabled = False
+
     def __exit__(self, *a):
+        if self.disabled:
+            return
         C = PP.PrettyContext
         C.start_visit, C.end_visit, C.is_visited = self.orig
 
@@ -306,7 +315,7 @@ def observe(graph, root, fault=0, exc=ValueError, width=79):
         with warnings.catch_warnings(record=True) as wl:
             warnings.simplefilter('always')
             with common.time_limit(20):
-                out = P.pformat(objs[root - 1], width=width)
+                out = P.pformat(wrap(graph, root, objs[root - 1]), width=width)
         res['nwarn'] = sum(1 for w in wl if 'raised an exception' in str(w.message))
         res['warn_names'] = [str(w.message).split(',')[1].strip() for w in wl if 'raised an exception' in str(w.message)]
         res['log'] = list(ob.log)
@@ -314,8 +323,9 @@ def observe(graph, root, fault=0, exc=ValueError, width=79):
         Faults.inv, Faults.fault = 0, 0
         with warnings.catch_warnings():
             warnings.simplefilter('ignore')
-            out2 = P.pformat(objs[root - 1], width=width)
+            out2 = P.pformat(wrap(graph, root, objs[root - 1]), width=width)
     res['out'], res['out2'] = out, out2
+    res['nolog'] = ob.disabled
     res['obs'] = tokens(pyterm.parse_output(out, recursion_ids=ids))
     res['obs2'] = tokens(pyterm.parse_output(out2, recursion_ids=ids))
     return res
@@ -354,6 +364,13 @@ def graph_universe(chk):
             add(random_graph(rng, 4))
     for _ in range(300 if q else 5000):
         add(random_graph(rng, rng.randint(4, 10)))
+    # containers that carry a trailing comment wherever they are referenced - and as the root of the print
+    for _ in range(300 if q else 5000):
+        g = random_graph(rng, rng.randint(1, 5), kinds=('list', 'dict', 'list', 'tuple'))
+        for nd in g:
+            if nd['k'] in ('list', 'dict') and rng.random() < 0.5:
+                nd['tc'] = 1
+        add(g)
     # cycles / shared nodes that are reached through comment() wrappers (dict values, list items, tuple items)
     for _ in range(300 if q else 5000):
         g = random_graph(rng, rng.randint(2, 6), kinds=('list', 'dict', 'dict', 'tuple'))
@@ -449,7 +466,7 @@ def check_c13(chk, args):
         m.update({'out': o['out'], 'out2': o['out2'], 'residue': o['residue']})
         cases.append({'id': i + 1, 'graph': [{'k': nd['k'], 'c': nd['c']} for nd in g], 'root': r, 'fault': 0,
                       'obs': o['obs'], 'obs2': o['obs2'], 'log': o['log'], 'residue': o['residue'], 'nwarn': o['nwarn'],
-                      'lazy': any(nd.get('cm') for nd in g)})
+                      'lazy': any(nd.get('cm') for nd in g) or o.get('nolog', False)})
         meta[i + 1] = m
         if any(t[0] == 'rec' for t in o['obs']):
             chk.nontrivial(repr(g))
@@ -716,7 +733,7 @@ def check_c14(chk, args):
                                   % (o['warn_names'], m), m)
                 cases.append({'id': cid, 'graph': [{'k': nd['k'], 'c': nd['c']} for nd in g], 'root': r, 'fault': fault,
                               'obs': o['obs'], 'obs2': o['obs2'], 'log': o['log'], 'residue': o['residue'],
-                              'nwarn': o['nwarn'], 'lazy': False})
+                              'nwarn': o['nwarn'], 'lazy': o.get('nolog', False)})
                 meta[cid] = m
                 chk.nontrivial((repr(g), fault, exc.__name__))
     nv, nd, st = run_cases(chk, cases, meta, 'C14')
